@@ -3,7 +3,7 @@ CONSTANTS
   NClasses = 4
   NInsts = 1
   Bodies = {}
-  Cfgs = {"pmax"}
+  Cfgs = {"pmaxK"}
   Muts = {}
   DescIds = {"d"}
   MaxBases = 2
